@@ -234,6 +234,7 @@ def apply {V} (k : Kind) (op : List (Arg V) → V) (tuple : V → List V) (expo 
     else match expo e with
       | none => .error .type
       | some x => .ok (call1 (pow a0.dim x) (a0.unpacked :: e :: rest))
+  | .powLike, [a0] => if !unpackOk [a0] then .error .assertion else .error .index   -- `args[1]` is looked up after unpacking
   | .unaryOp, a0 :: rest =>
     if unpackOk [a0] then .ok { passed := a0.unpacked :: rest, result := [.plain (op (a0.unpacked :: rest))] } else .error .assertion
   | .binaryOp, a0 :: a1 :: rest =>
